@@ -243,7 +243,8 @@ class Function:
     def addr_taken(self):
         if self._addr_taken is None:
             s = set()
-            for i, nd in enumerate(self.nodes):
+            for i in self.walk():       # nodes of the tree only (arguments of replaced calls are detached)
+                nd = self.nodes[i]
                 if nd["k"] == "Un" and nd["op"] == "&":
                     t = self.strip(nd["ch"][0])
                     if self.k(t) == "DeclRef" and self.nodes[t]["ref"] in ("local", "param"):
